@@ -175,6 +175,14 @@ def extract_blocks(
             # If form has no sub elements, return the form itself.
             if num_sub_elements == 0:
                 return form
+            if arity == 1:
+                # A linear form has one block per sub element (not a matrix
+                # of blocks whose columns would all be copies of each other)
+                blocks: list[object | None] = []
+                for pi in range(num_sub_elements):
+                    f = fs.split(form, pi)
+                    blocks.append(None if f.empty() else f)
+                return tuple(blocks)  # type: ignore[return-value]
             forms = []
             for pi in range(num_sub_elements):
                 form_i: list[object | None] = []
